@@ -5,18 +5,14 @@ ROOT = os.path.dirname(os.path.dirname(os.path.abspath(__file__)))
 props = [json.loads(l) for l in open(os.path.join(ROOT, "properties.jsonl"))]
 ids = [p["id"] for p in props]
 
-CLAIMED = {
- "C15": dict(
-   text="Machine-checked Coq theorems over an executable model of names.rs and of the semver crate's parser and "
-        "ordering: the compatibility function is exactly the semver-track relation (iff), it is an equivalence, "
-        "the version order is total and version texts are injective, and after ANY insertion history the map "
-        "returns the exact entry else the highest on the track, independent of insertion order. The model is tied "
-        "to the code on every run by a 370k-case correspondence (all pairs of the property's universe).",
-   design_ref="DESIGN.md §5 C15",
-   note="Trusted: Coq kernel; extraction (ExtrOcamlBasic); OCaml driver; Rust harness; the models Semver.v/Names.v "
-        "are hand-written and validated by correspondence, not derived from the Rust source.",
-   technique="Coq proof (induction over insertion histories, Permutation) + extracted-model correspondence"),
-}
+import importlib, sys
+sys.path.insert(0, os.path.join(ROOT, "tools"))
+CLAIMED = {}
+for pid in ids:
+    if os.path.exists(os.path.join(ROOT, "tools", "props", pid.lower() + ".py")):
+        mod = importlib.import_module("props." + pid.lower())
+        if getattr(mod, "CLAIM", None):
+            CLAIMED[pid] = mod.CLAIM
 NOT_YET = "model and theorems not yet built in this round; see DESIGN.md §9 for the construction order"
 
 checks = []
